@@ -13,7 +13,7 @@ func init() { runners["C09"] = runC09 }
 
 type c09Case struct {
 	Client bool   `json:"client"`
-	Peer   string `json:"peer"`  // silent | stall-header | stall-payload | flood-frames | flood-one-frame | never-reads | half-close | data-to-closeread
+	Peer   string `json:"peer"`  // silent | stall-header | stall-header-after-frame | stall-payload | flood-frames | flood-one-frame | never-reads | half-close | data-to-closeread
 	K      int    `json:"k"`     // bytes sent before stalling
 	Local  string `json:"local"` // idle | reader-blocked | half-read | closeread | writer-blocked | writer-arrives | pinger-arrives
 	Op     string `json:"op"`    // close | closenow | none (data-to-closeread)
@@ -79,6 +79,16 @@ func runC09Case(cc c09Case) (string, string) {
 			k = len(h)
 		}
 		send(h[:k])
+	case "stall-header-after-frame":
+		// a complete (empty) ping and the first k bytes of the next frame's header arrive in one piece: the
+		// partial header is already buffered when the next header read starts
+		pf := RawFrame{Fin: true, Op: 9, Masked: peerMask, Key: [4]byte{2, 7, 1, 8}}
+		h := hdrOf(1 << 20)
+		k := cc.K
+		if k > len(h) {
+			k = len(h)
+		}
+		send(append(pf.Encode(), h[:k]...))
 	case "stall-payload":
 		send(hdrOf(1 << 20))
 		send(make([]byte, cc.K))
@@ -204,7 +214,7 @@ func runC09Case(cc c09Case) (string, string) {
 
 func runC09(ctx *runCtx) {
 	rep := ctx.rep
-	rep.Rule = "scripted adversary peers {silent, stall after k bytes of a header (k=1,2,6,10,13), stall after k payload bytes (k=0,1,100,5000), endless small data frames, one frame declaring 2^62 bytes fed forever, never reads (writes block), half-close, data message to a CloseRead connection} x local state at the time of the call {idle, reader blocked, message half read, CloseRead active, writer blocked, a Write / Ping without deadline arriving 200 ms after the call began} x {Close, CloseNow} x role; " +
+	rep.Rule = "scripted adversary peers {silent, stall after k bytes of a header (k=1,2,6,10,13; also with the k bytes arriving together with a preceding complete frame), stall after k payload bytes (k=0,1,100,5000), endless small data frames, one frame declaring 2^62 bytes fed forever, never reads (writes block), half-close, data message to a CloseRead connection} x local state at the time of the call {idle, reader blocked, message half read, CloseRead active, writer blocked, a Write / Ping without deadline arriving 200 ms after the call began} x {Close, CloseNow} x role; " +
 		"wall clock: Close <= 12.5 s, CloseNow <= 1.5 s, blocked calls and the CloseRead context released <= 1.5 s after. distinct = scenario tuple"
 	if ctx.replay != "" {
 		var cc c09Case
@@ -221,9 +231,9 @@ func runC09(ctx *runCtx) {
 		p string
 		k int
 	}
-	peers := []pk{{"silent", 0}, {"stall-header", 1}, {"stall-header", 6}, {"stall-payload", 0}, {"stall-payload", 100}, {"flood-frames", 0}, {"flood-one-frame", 0}, {"never-reads", 0}, {"half-close", 0}}
+	peers := []pk{{"silent", 0}, {"stall-header", 1}, {"stall-header", 6}, {"stall-header-after-frame", 2}, {"stall-header-after-frame", 5}, {"stall-payload", 0}, {"stall-payload", 100}, {"flood-frames", 0}, {"flood-one-frame", 0}, {"never-reads", 0}, {"half-close", 0}}
 	if ctx.thorough() {
-		peers = append(peers, pk{"stall-header", 2}, pk{"stall-header", 10}, pk{"stall-header", 13}, pk{"stall-payload", 1}, pk{"stall-payload", 5000})
+		peers = append(peers, pk{"stall-header-after-frame", 3}, pk{"stall-header-after-frame", 9}, pk{"stall-header", 2}, pk{"stall-header", 10}, pk{"stall-header", 13}, pk{"stall-payload", 1}, pk{"stall-payload", 5000})
 	}
 	locals := []string{"idle", "reader-blocked", "half-read", "closeread", "writer-blocked"}
 	for i, p := range peers {
